@@ -97,15 +97,15 @@ theorem searchLoop_abort (mark : Nat) (backup : Text) (backupPos : Nat) (hbp : b
     rw [wp_lowerMark]
     obtain ⟨l3, _⟩ := Ed.coreNC_eq hc3
     have hg3 : s3.line.canGrow = true := by rw [l3, l2]; exact hg
-    have hds : ∀ (mark : Nat) (sb : Text) (hi : Nat) (d : Dir),
+    have hds : ∀ (mark : Nat) (sb : Text) (hi hi0 : Nat) (d : Dir),
         wp (match (memHist cfg).search sb hi d with
             | some (idx, entry, pos) => do
               lb S U (LB.update S U entry pos)
               searchLoop S U cfg mark backup backupPos fuel sb idx d true
-            | none => searchLoop S U cfg mark backup backupPos fuel sb hi d false)
+            | none => searchLoop S U cfg mark backup backupPos fuel sb hi0 d false)
           (fun r s' => r = none → s'.line.buf = backup ∧ s'.line.pos = backupPos ∧ s'.line.canGrow = true)
           (fun _ _ => True) s3 := by
-      intro mark sb hi d
+      intro mark sb hi hi0 d
       cases (memHist cfg).search sb hi d with
       | none => exact ih _ _ _ _ _ s3 hg3
       | some r =>
@@ -114,13 +114,13 @@ theorem searchLoop_abort (mark : Nat) (backup : Text) (backupPos : Nat) (hbp : b
         refine wp_lb_any S U (fun a l ns h => ?_) trivial
         exact ih _ _ _ _ _ _ (LB.update_keeps_canGrow S U h hg3)
     split
-    · exact hds _ _ _ _
+    · exact hds _ _ _ _ _
     · exact ih _ _ _ _ _ s3 hg3
     · split
-      · exact hds _ _ _ _
+      · exact hds _ _ _ _ _
       · exact ih _ _ _ _ _ s3 hg3
     · split
-      · exact hds _ _ _ _
+      · exact hds _ _ _ _ _
       · exact ih _ _ _ _ _ s3 hg3
     · simp only [wp_bind]
       refine wp_lb_update S U hg3 hbp ?_
